@@ -137,7 +137,9 @@ func (m *expirationMap[V]) cleanup(store store[V], policy *defaultPolicy[V], onE
 			verifPoint(vpSweepKey, key, conflict)
 			expr := store.Expiration(key)
 			// Sanity check. Verify that the store agrees that this key is expired.
-			if expr.After(now) {
+			// A zero expiration means the key was deleted or rewritten without a TTL
+			// after this bucket was taken: it must not be expired.
+			if expr.IsZero() || expr.After(now) {
 				verifPoint(vpSweepSkip, key, conflict)
 				continue
 			}
